@@ -103,7 +103,7 @@ def job(sub, runtime, budget):
 
 def instances(tier):
     if tier == 'quick':
-        return [('ActorRuntime', 1)]
+        return [('ActorRuntime', 1), ('ThreadLocalActorRuntime', 1)]
     return [('ActorRuntime', 1), ('ActorRuntime', 2), ('ThreadLocalActorRuntime', 1)]
 
 
